@@ -221,11 +221,9 @@ Proof.
     { apply laws_nochange; try reflexivity; [apply wire_ids_drop|apply stamps_drop]. }
     assert (Hnone : laws s s [] (queued [c])) by (apply laws_nochange; reflexivity).
     assert (Hlive : (let '(s', o) :=
-      if Nat.eqb (handles s) 0 then (s, [])
-      else if is_nil (blocked s) && Nat.ltb (length (queue s)) (cfg_cap cfg) then (set_chan s (queue s ++ [c]) (blocked s), [])
+      if is_nil (blocked s) && Nat.ltb (length (queue s)) (cfg_cap cfg) then (set_chan s (queue s ++ [c]) (blocked s), [])
       else match st with SFfi => (s, drop_queue [c]) | _ => (set_chan s (queue s) (blocked s ++ [c]), []) end in laws s s' o (queued [c]))).
-    { destruct (Nat.eqb (handles s) 0); [exact Hnone|].
-      destruct (is_nil (blocked s) && Nat.ltb (length (queue s)) (cfg_cap cfg)) eqn:Eq.
+    { destruct (is_nil (blocked s) && Nat.ltb (length (queue s)) (cfg_cap cfg)) eqn:Eq.
       - apply andb_prop in Eq. destruct Eq as [Eb _]. destruct (blocked s) eqn:Ebl; [|discriminate].
         split; [left; split; reflexivity|]. split; [|left; reflexivity]. unfold fifo_law, waiting. cbn. rewrite Ebl.
         rewrite queued_app. change (queued []) with (@nil nat). rewrite !app_nil_r, <- app_assoc. apply subseq_refl.
@@ -233,6 +231,7 @@ Proof.
         { split; [left; split; reflexivity|]. split; [|left; reflexivity]. unfold fifo_law, waiting. cbn.
           rewrite queued_app, <- !app_assoc. apply subseq_refl. }
         destruct st; [exact Hb|exact Hb|exact Hdrop]. }
+    destruct (Nat.eqb (handles s) 0); [exact Hnone|].
     destruct (ph s); try exact Hlive. exact Hdrop.
   - (* drop handle *) apply laws_nochange; reflexivity.
   - (* recv *)
@@ -332,7 +331,7 @@ Proof.
   { intros s0 res. pose proof (finish_summary s0 r res) as H. destruct (finish s0 r res) as [s' o].
     destruct H as (_ & _ & _ & _ & _ & [(_ & _ & _ & ->)|(_ & _ & _ & ->)]); left; reflexivity. }
   destruct e as [c st| | |ok|tx' k|tx' k| | | | | |dt| |dt|]; cbn [step]; rewrite ?Eph; cbn [listens reading]; auto.
-  - destruct (Nat.eqb (handles s) 0); [auto|]. destruct (_ && _); [left; exact Eph|]. destruct st; left; exact Eph.
+  - destruct (Nat.eqb (handles s) 0); [auto|]. cbn [fst snd]. destruct (_ && _); [left; exact Eph|]. destruct st; left; exact Eph.
   - destruct (partial s); [auto|]. unfold on_frame. rewrite Eph. destruct (tx' =? tx); [|auto].
     specialize (Hfin s (respond k)). destruct (finish s r (respond k)). auto.
   - destruct (partial s); left; exact Eph.
